@@ -41,24 +41,6 @@ pub fn decode(bytes: &[u8]) -> Case {
     }
     .level(&mut u, &level);
     let mut prep = prepare(&sent);
-    // a word that begins like a cluster: a declared non-ASCII short flag followed by a letter
-    // nobody declares (`-éq`): bpaf reads such an item as a plain word wherever it stands
-    {
-        let (flags, args) = level.visible_shorts();
-        let mb = flags.iter().copied().find(|c| !c.is_ascii());
-        let free = ['q', 'z', 'j', 'x']
-            .into_iter()
-            .find(|c| !flags.contains(c) && !args.contains(c));
-        if let (Some(m), Some(f), true) = (mb, free, u.chance(120)) {
-            if let Some(w) = prep.levels.iter_mut().flat_map(|l| l.words.iter_mut()).next() {
-                if let LKind::Word(b) = &mut w.kind {
-                    if std::str::from_utf8(b).is_ok() {
-                        *b = format!("-{}{}{}", m, f, String::from_utf8_lossy(b)).into_bytes();
-                    }
-                }
-            }
-        }
-    }
     let mut mutated = None;
     if u.chance(60) {
         let li = u.below(prep.levels.len());
@@ -242,7 +224,7 @@ pub fn decode_group(bytes: &[u8]) -> GroupCase {
     let mut tokens: Vec<Vec<u8>> = Vec::new();
     let mut named_units: Vec<Vec<Vec<u8>>> = Vec::new(); // leads in order
     let mut words: Vec<Vec<u8>> = Vec::new();
-    let mut spell_unit = |u: &mut Un, names: &mut Names, n: &NamedSpec, tokens: &mut Vec<Vec<u8>>| -> Vec<Vec<u8>> {
+    let spell_unit = |u: &mut Un, names: &mut Names, n: &NamedSpec, tokens: &mut Vec<Vec<u8>>| -> Vec<Vec<u8>> {
         let value = if n.is_arg() {
             let v = format!("v{}", names.val()).into_bytes();
             tokens.push(v.clone());
@@ -435,14 +417,70 @@ impl Prop for C03 {
         };
         let opts = SpellOpts::default();
         let mut st = SpellStats::default();
-        let (argv_a, _) = render(&case.base, &case.plan, &opts, &mut st);
-        let (argv_b, _) = render(&case.perm, &case.plan, &opts, &mut st);
+        let (mut argv_a, _) = render(&case.base, &case.plan, &opts, &mut st);
+        let (mut argv_b, _) = render(&case.perm, &case.plan, &opts, &mut st);
+        // a word that begins like a cluster: a declared non-ASCII short flag followed by a letter
+        // nobody declares (`-éqw1`): bpaf reads such an item as a plain word wherever it stands.
+        // Only on lines without `--` (behind it nothing is tokenised)
+        let substitution: Option<(Vec<u8>, Vec<u8>)> = {
+            let (flags, args) = case.level.visible_shorts();
+            let mb = flags.iter().copied().find(|c| !c.is_ascii());
+            let free = ['q', 'z', 'j', 'x']
+                .into_iter()
+                .find(|c| !flags.contains(c) && !args.contains(c));
+            let word = case
+                .prep
+                .levels
+                .iter()
+                .flat_map(|l| l.words.iter())
+                .find_map(|w| match &w.kind {
+                    LKind::Word(b) if !b.starts_with(b"-") && std::str::from_utf8(b).is_ok() => {
+                        Some(b.clone())
+                    }
+                    _ => None,
+                });
+            let no_dd = !argv_a.iter().any(|a| a.as_slice() == b"--");
+            match (mb, free, word, no_dd && bytes.len() % 2 == 0) {
+                (Some(m), Some(f), Some(w), true) => {
+                    let new = format!("-{}{}{}", m, f, String::from_utf8_lossy(&w)).into_bytes();
+                    Some((w, new))
+                }
+                _ => None,
+            }
+        };
+        let subst = |argv: &mut Vec<Vec<u8>>| {
+            if let Some((w, new)) = &substitution {
+                for it in argv.iter_mut() {
+                    if it == w {
+                        *it = new.clone();
+                    }
+                }
+            }
+        };
+        subst(&mut argv_a);
+        subst(&mut argv_b);
         let out_a = run(&parser, &argv_a);
         ctx.eval(1);
         if let Outcome::Panic { at, msg } = &out_a {
             return Verdict::fail(format!("panic@{}", at), msg.clone());
         }
         ctx.class(&format!("outcome:{}", out_a.class()));
+        if argv_a.iter().any(|a| {
+            a.len() > 3 && a[0] == b'-' && a[1] >= 0x80 && !a.contains(&b'=')
+        }) {
+            ctx.class("line-with-non-ascii-single-dash-item");
+        }
+        if argv_a.iter().any(|a| {
+            std::str::from_utf8(a).map_or(false, |s| {
+                let mut cs = s.chars();
+                cs.next() == Some('-')
+                    && cs.next().map_or(false, |c| !c.is_ascii())
+                    && cs.next().map_or(false, |c| "qzjx".contains(c))
+                    && !s.contains('=')
+            })
+        }) {
+            ctx.class("cluster-looking-word");
+        }
         if case.mutated.is_some() {
             ctx.class("arity-mutant");
         }
@@ -485,7 +523,8 @@ impl Prop for C03 {
             }
         }
         for lay in candidates {
-            let (argv_b, _) = render(&lay, &case.plan, &opts, &mut st);
+            let (mut argv_b, _) = render(&lay, &case.plan, &opts, &mut st);
+            subst(&mut argv_b);
             if argv_b == argv_a {
                 continue;
             }
